@@ -147,6 +147,26 @@ def _compose(ctx, thorough):
         if gen.ncases < least:
             raise vlib.ToolError("%s generator produced too few cases: %d" % (mode, gen.ncases))
         ctx.replay_cases("replay_client", cases, label="compose-" + mode)
+    # connection failures (refused, closed with requests outstanding) on a
+    # clock of 10 ms ticks, far shorter than multi_stream's back-off: the
+    # response timeout runs out while the request sits in its back-off, and
+    # the request must be completed then (MOnTime), not when the back-off ends
+    for mode, least in (("multi", 150), ("dgst", 100)):
+        cases = _gen_replay(ctx, "Gen_ClientCompose", "Gen_ClientCompose_%s_fail" % mode,
+                            "compose-%s-fail" % mode, least)
+        n = 0
+        for line in open(cases):
+            c = json.loads(line)
+            ops = [o["op"] for o in c["in"]["ops"]]
+            done = c["exp"][-1]["done"]
+            done = done[0] if mode == "multi" else done
+            if len(ops) >= 2 and ops[-1] == "tick" and ops[-2] in ("conn_fail", "close") and done \
+                    and not done[0]["ok"]:
+                before = c["exp"][-2]["done"]
+                if not (before[0] if mode == "multi" else before):
+                    n += 1     # completed by this very tick, one tick into the back-off
+        if n < 10:
+            raise vlib.ToolError("vacuity: only %d %s cases time out during the back-off" % (n, mode))
 
 
 # ---------------------------------------------------------------------------
@@ -573,7 +593,7 @@ def run(ctx):
     ctx.assume("std::time::Instant (used by net::client::stream) is driven by interposing clock_gettime(CLOCK_MONOTONIC) in the harness executables, in lock step with tokio's paused clock")
     ctx.assume("errors are compared as a class (ok / error), not by value")
     ctx.assume("dgram: successive attempts draw different random IDs (a case in which they collide is re-run)")
-    ctx.assume("multi_stream back-off (random, below 2^n s, at most 60 s) is shorter than one tick (100 s for multi_stream cases; 10 s and at most three failures for dgram_stream cases), so a Delay ends with the next tick")
+    ctx.assume("multi_stream back-off (random, below 2^n s, at most 60 s) is shorter than one tick (100 s for multi_stream cases; 10 s and at most three failures for dgram_stream cases), so a Delay ends with the next tick; on the 10 ms clock of the connection-failure cases (ticks far shorter than the back-off) a state in which a request is in its back-off with more than one tick to go is not expanded: when the back-off ends is then not determined, that the request completes on time is")
     ctx.assume("balancers: every upstream that is asked hands back one result (assume/guarantee); which usable upstream is tried next and after how many ticks the probe timer fires is left open")
     ctx.assume("no caller drops its request future before it resolves")
     ctx.assume("zone transfers: later messages of a transfer are matched by ID only (check_stream checks neither QR nor the question after the first SOA); the spec states the same")
